@@ -1,2 +1,545 @@
-//! Deterministic single-threaded simulator over the real Environment and Workers (filled in with
-//! the concurrency properties).
+//! Deterministic single-threaded simulator over the REAL `Environment` and `Worker`s.
+//!
+//! The transport traits (`CommandReceiver`, `EventSender`, `WorkerHandle`) are implemented over
+//! shared in-memory FIFO queues, so every scheduling decision — which of {environment, worker i}
+//! steps next, how many queued commands / events are *visible* to that step, when the virtual
+//! clock advances, how long a time slice is — is an explicit, recorded `Choice`. A schedule is a
+//! `Vec<Choice>`; replaying it reproduces the run exactly.
+//!
+//! Everything observable goes through public API plus the `verif` hooks
+//! (`Worker::verif_executor`, `Executor::verif_*`, the time-slice override).
+use crate::rng::Rng;
+use quiver_compiler::PackageResolver;
+use quiver_core::process::ProcessId;
+use quiver_core::value::Value;
+use quiver_environment::{
+    Command, CommandReceiver, Environment, EnvironmentError, Event, EventSender, Repl, ReplError,
+    RequestResult, Worker, WorkerHandle,
+};
+use quiver_io::NativeEffect;
+use std::collections::{HashMap, VecDeque};
+use std::sync::{Arc, Mutex};
+
+pub type E = NativeEffect;
+
+/// One direction-pair of queues between the environment and one worker.
+#[derive(Default)]
+pub struct Chan {
+    pub cmds: VecDeque<Command<E>>,
+    pub evts: VecDeque<Event<E>>,
+    /// how many more commands the worker may see in its current step (partial visibility)
+    pub cmd_budget: usize,
+    /// how many more events the environment may see from this worker in its current step
+    pub evt_budget: usize,
+    /// record every message that passes (clone) — for ghost histories
+    pub record: bool,
+    pub cmd_log: Vec<(u64, Command<E>)>,
+    pub evt_log: Vec<(u64, Event<E>)>,
+}
+
+#[derive(Clone)]
+pub struct Shared {
+    pub chan: Arc<Mutex<Chan>>,
+    pub seq: Arc<Mutex<u64>>,
+}
+
+pub struct SimReceiver(Shared);
+pub struct SimSender(Shared);
+pub struct SimHandle(Shared);
+
+fn next_seq(s: &Shared) -> u64 {
+    let mut g = s.seq.lock().unwrap();
+    *g += 1;
+    *g
+}
+
+impl CommandReceiver<E> for SimReceiver {
+    fn try_recv(&mut self) -> Result<Option<Command<E>>, EnvironmentError> {
+        let mut c = self.0.chan.lock().unwrap();
+        if c.cmd_budget == 0 {
+            return Ok(None);
+        }
+        match c.cmds.pop_front() {
+            Some(x) => {
+                c.cmd_budget -= 1;
+                Ok(Some(x))
+            }
+            None => Ok(None),
+        }
+    }
+}
+
+impl EventSender<E> for SimSender {
+    fn send(&mut self, event: Event<E>) -> Result<(), EnvironmentError> {
+        let n = next_seq(&self.0);
+        let mut c = self.0.chan.lock().unwrap();
+        if c.record {
+            c.evt_log.push((n, event.clone()));
+        }
+        c.evts.push_back(event);
+        Ok(())
+    }
+}
+
+impl WorkerHandle<E> for SimHandle {
+    fn send(&mut self, command: Command<E>) -> Result<(), EnvironmentError> {
+        let n = next_seq(&self.0);
+        let mut c = self.0.chan.lock().unwrap();
+        if c.record {
+            c.cmd_log.push((n, command.clone()));
+        }
+        c.cmds.push_back(command);
+        Ok(())
+    }
+    fn try_recv(&mut self) -> Result<Option<Event<E>>, EnvironmentError> {
+        let mut c = self.0.chan.lock().unwrap();
+        if c.evt_budget == 0 {
+            return Ok(None);
+        }
+        match c.evts.pop_front() {
+            Some(x) => {
+                c.evt_budget -= 1;
+                Ok(Some(x))
+            }
+            None => Ok(None),
+        }
+    }
+}
+
+/// One scheduling decision.
+#[derive(Clone, Debug, PartialEq, Eq)]
+pub enum Choice {
+    /// environment step; `visible[i]` = how many queued events of worker i it may consume
+    /// (`usize::MAX` = all)
+    Env { visible: Vec<usize> },
+    /// worker `i` step; sees at most `visible` queued commands
+    Worker { i: usize, visible: usize },
+    /// advance the virtual clock by `ms`
+    Tick { ms: u64 },
+}
+
+impl Choice {
+    pub fn render(&self) -> String {
+        match self {
+            Choice::Env { visible } => {
+                if visible.iter().all(|v| *v == usize::MAX) {
+                    "E".to_string()
+                } else {
+                    format!(
+                        "E[{}]",
+                        visible
+                            .iter()
+                            .map(|v| if *v == usize::MAX { "*".to_string() } else { v.to_string() })
+                            .collect::<Vec<_>>()
+                            .join(",")
+                    )
+                }
+            }
+            Choice::Worker { i, visible } => {
+                if *visible == usize::MAX { format!("W{i}") } else { format!("W{i}[{visible}]") }
+            }
+            Choice::Tick { ms } => format!("T{ms}"),
+        }
+    }
+}
+
+#[derive(Clone, Debug)]
+pub enum StepOutcome {
+    /// did_work flag returned by the component
+    Ok(bool),
+    /// `Err(..)` returned by `Worker::step` / `Environment::step`
+    Err(String),
+    /// the component panicked
+    Panic(String),
+}
+
+pub struct Sim {
+    pub env: Environment<E>,
+    pub workers: Vec<Worker<E, SimReceiver, SimSender>>,
+    pub chans: Vec<Shared>,
+    pub time_ms: u64,
+    pub quantum: Option<usize>,
+    pub repl: Option<Repl<E>>,
+    pub builtins: crate::run::Builtins,
+    pub schedule: Vec<Choice>,
+    /// every Err / panic seen while stepping: (schedule index, component, message)
+    pub faults: Vec<(usize, String, String)>,
+}
+
+/// Parameters of the random scheduler.
+#[derive(Clone, Debug)]
+pub struct Policy {
+    /// probability (per mille) that a step sees only part of its queue
+    pub partial_visibility_pm: u64,
+    /// probability (per mille) of a clock tick at any point
+    pub tick_pm: u64,
+    /// maximum tick size in ms
+    pub max_tick: u64,
+    /// per-mille weight of choosing the environment (the rest is split between workers)
+    pub env_weight_pm: u64,
+    /// optional per-worker weights (starvation patterns); empty = uniform
+    pub worker_weights: Vec<u64>,
+}
+
+impl Default for Policy {
+    fn default() -> Self {
+        Policy { partial_visibility_pm: 150, tick_pm: 20, max_tick: 5, env_weight_pm: 350, worker_weights: vec![] }
+    }
+}
+
+impl Policy {
+    pub fn random(r: &mut Rng, n_workers: usize) -> Policy {
+        let mut p = Policy::default();
+        p.partial_visibility_pm = *r.pick(&[0, 0, 100, 300, 600]);
+        p.tick_pm = *r.pick(&[0, 5, 20, 80]);
+        p.max_tick = *r.pick(&[1, 3, 10, 50]);
+        p.env_weight_pm = *r.pick(&[150, 350, 350, 600]);
+        if r.chance(1, 3) {
+            p.worker_weights = (0..n_workers).map(|_| *r.pick(&[1u64, 1, 5, 20])).collect();
+        }
+        p
+    }
+}
+
+impl Sim {
+    pub fn new(n_workers: usize, quantum: Option<usize>, builtins: crate::run::Builtins, record: bool) -> Sim {
+        assert!(n_workers >= 1);
+        let seq = Arc::new(Mutex::new(0u64));
+        let mut chans = vec![];
+        let mut workers = vec![];
+        let mut handles: Vec<Box<dyn WorkerHandle<E>>> = vec![];
+        for i in 0..n_workers {
+            let sh = Shared { chan: Arc::new(Mutex::new(Chan { record, ..Default::default() })), seq: seq.clone() };
+            chans.push(sh.clone());
+            workers.push(Worker::<E, _, _>::new(
+                SimReceiver(sh.clone()),
+                SimSender(sh.clone()),
+                builtins.clone(),
+                false,
+                i as u16,
+            ));
+            handles.push(Box::new(SimHandle(sh)));
+        }
+        let env = Environment::<E>::new(handles);
+        Sim { env, workers, chans, time_ms: 0, quantum, repl: None, builtins, schedule: vec![], faults: vec![] }
+    }
+
+    /// Create the REPL (persistent process 0) with in-memory modules.
+    pub fn with_repl(mut self, modules: HashMap<Vec<String>, String>) -> Sim {
+        let resolver = Box::new(PackageResolver::memory(modules));
+        let repl = Repl::new(&mut self.env, resolver, self.builtins.clone()).expect("repl");
+        self.repl = Some(repl);
+        self
+    }
+
+    pub fn n_workers(&self) -> usize {
+        self.workers.len()
+    }
+
+    pub fn queued_cmds(&self, i: usize) -> usize {
+        self.chans[i].chan.lock().unwrap().cmds.len()
+    }
+    pub fn queued_evts(&self, i: usize) -> usize {
+        self.chans[i].chan.lock().unwrap().evts.len()
+    }
+
+    /// Execute one scheduling choice on the real components.
+    pub fn step(&mut self, c: Choice) -> StepOutcome {
+        quiver_core::executor::verif::set_quantum_override(self.quantum);
+        let idx = self.schedule.len();
+        self.schedule.push(c.clone());
+        let out = match &c {
+            Choice::Tick { ms } => {
+                self.time_ms += ms;
+                StepOutcome::Ok(true)
+            }
+            Choice::Env { visible } => {
+                for (i, sh) in self.chans.iter().enumerate() {
+                    sh.chan.lock().unwrap().evt_budget = visible.get(i).copied().unwrap_or(usize::MAX);
+                }
+                let env = &mut self.env;
+                match crate::catch(|| env.step()) {
+                    Ok(Ok(b)) => StepOutcome::Ok(b),
+                    Ok(Err(e)) => StepOutcome::Err(format!("{e:?}")),
+                    Err(p) => StepOutcome::Panic(p),
+                }
+            }
+            Choice::Worker { i, visible } => {
+                self.chans[*i].chan.lock().unwrap().cmd_budget = *visible;
+                let t = self.time_ms;
+                let w = &mut self.workers[*i];
+                match crate::catch(|| w.step(t)) {
+                    Ok(Ok(b)) => StepOutcome::Ok(b),
+                    Ok(Err(e)) => StepOutcome::Err(format!("{e:?}")),
+                    Err(p) => StepOutcome::Panic(p),
+                }
+            }
+        };
+        match &out {
+            StepOutcome::Err(m) => self.faults.push((idx, c.render(), format!("Err: {m}"))),
+            StepOutcome::Panic(m) => self.faults.push((idx, c.render(), format!("panic: {m}"))),
+            _ => {}
+        }
+        out
+    }
+
+    /// Nothing queued anywhere and no worker has a runnable process.
+    pub fn idle(&self) -> bool {
+        (0..self.n_workers()).all(|i| self.queued_cmds(i) == 0 && self.queued_evts(i) == 0)
+            && self.workers.iter().all(|w| !w.has_runnable())
+    }
+
+    /// Earliest pending select timeout over all workers.
+    pub fn next_timeout(&self) -> Option<u64> {
+        self.workers.iter().filter_map(|w| w.next_timeout_ms()).min()
+    }
+
+    /// Idle and no timeout pending: nothing can ever happen again without outside input.
+    pub fn quiescent(&self) -> bool {
+        self.idle() && self.next_timeout().is_none()
+    }
+
+    /// Draw the next choice of a random schedule.
+    pub fn random_choice(&self, r: &mut Rng, p: &Policy) -> Choice {
+        let n = self.n_workers();
+        if self.idle() {
+            // only time can make progress
+            if let Some(t) = self.next_timeout()
+                && t > self.time_ms
+            {
+                let need = t - self.time_ms;
+                // sometimes undershoot so that "not early" is exercised
+                let ms = if r.chance(1, 3) && need > 1 { r.range(1, need as i64 - 1) as u64 } else { need };
+                return Choice::Tick { ms };
+            }
+        }
+        if p.tick_pm > 0 && r.below(1000) < p.tick_pm {
+            return Choice::Tick { ms: 1 + r.below(p.max_tick.max(1)) };
+        }
+        if r.below(1000) < p.env_weight_pm {
+            let visible = (0..n)
+                .map(|i| {
+                    let q = self.queued_evts(i);
+                    if q > 0 && r.below(1000) < p.partial_visibility_pm { r.usize(q + 1) } else { usize::MAX }
+                })
+                .collect();
+            return Choice::Env { visible };
+        }
+        let i = if p.worker_weights.len() == n {
+            let total: u64 = p.worker_weights.iter().sum();
+            let mut x = r.below(total.max(1));
+            let mut k = 0;
+            for (j, w) in p.worker_weights.iter().enumerate() {
+                if x < *w {
+                    k = j;
+                    break;
+                }
+                x -= w;
+            }
+            k
+        } else {
+            r.usize(n)
+        };
+        let q = self.queued_cmds(i);
+        let visible = if q > 0 && r.below(1000) < p.partial_visibility_pm { r.usize(q + 1) } else { usize::MAX };
+        Choice::Worker { i, visible }
+    }
+
+    /// A fair round: environment then every worker, everything visible.
+    pub fn fair_round(&mut self) {
+        let n = self.n_workers();
+        self.step(Choice::Env { visible: vec![usize::MAX; n] });
+        for i in 0..n {
+            self.step(Choice::Worker { i, visible: usize::MAX });
+        }
+    }
+
+    /// Run fair rounds (advancing the clock to the next timeout when idle) until `done` or
+    /// quiescence or `max_rounds`. Returns true if `done` became true.
+    pub fn run_fair(&mut self, max_rounds: usize, mut done: impl FnMut(&mut Sim) -> bool) -> bool {
+        for _ in 0..max_rounds {
+            if done(self) {
+                return true;
+            }
+            if self.idle() {
+                match self.next_timeout() {
+                    Some(t) => {
+                        let ms = t.saturating_sub(self.time_ms).max(1);
+                        self.step(Choice::Tick { ms });
+                    }
+                    None => {
+                        // one more round lets pending completions be reported
+                        self.fair_round();
+                        if done(self) {
+                            return true;
+                        }
+                        if self.quiescent() {
+                            return false;
+                        }
+                    }
+                }
+            }
+            self.fair_round();
+        }
+        done(self)
+    }
+
+    /// Run a random schedule until `done`, quiescence or `max_steps`.
+    pub fn run_random(&mut self, r: &mut Rng, p: &Policy, max_steps: usize, mut done: impl FnMut(&mut Sim) -> bool) -> bool {
+        let mut idle_streak = 0;
+        for _ in 0..max_steps {
+            if done(self) {
+                return true;
+            }
+            if self.quiescent() {
+                idle_streak += 1;
+                if idle_streak > 2 * (self.n_workers() + 1) {
+                    return false;
+                }
+                // give every component one more full look (completions are reported lazily)
+                self.fair_round();
+                continue;
+            }
+            idle_streak = 0;
+            let c = self.random_choice(r, p);
+            self.step(c);
+        }
+        done(self)
+    }
+
+    /// Fetch process types (needed before `Repl::evaluate`) with fair rounds.
+    pub fn process_types(&mut self) -> HashMap<usize, (quiver_core::types::Type, usize)> {
+        let id = self.env.request_process_types().expect("request_process_types");
+        let mut out = None;
+        for _ in 0..1000 {
+            self.fair_round();
+            match self.env.poll_request(id) {
+                Ok(Some(RequestResult::ProcessTypes(t))) => {
+                    out = Some(t);
+                    break;
+                }
+                Ok(Some(_)) => panic!("unexpected result for process types"),
+                Ok(None) => {}
+                Err(e) => panic!("process types: {e:?}"),
+            }
+        }
+        out.expect("process types not answered")
+    }
+
+    /// Submit a line / program to the REPL. `Ok(None)` = nothing to run (type definitions only).
+    pub fn submit(&mut self, src: &str) -> Result<Option<u64>, ReplError> {
+        let types = self.process_types();
+        let mut repl = self.repl.take().expect("with_repl first");
+        let r = repl.evaluate(&mut self.env, src, types);
+        self.repl = Some(repl);
+        r
+    }
+
+    /// Poll an evaluation request: `None` = not ready.
+    pub fn poll_result(&mut self, request_id: u64) -> Option<Result<(Value, Vec<Vec<u8>>), quiver_core::Error>> {
+        match self.env.poll_request(request_id) {
+            Ok(Some(RequestResult::Result(r, _))) => Some(r),
+            Ok(Some(_)) => panic!("unexpected request result kind"),
+            Ok(None) => None,
+            Err(e) => panic!("poll_request: {e:?}"),
+        }
+    }
+
+    /// Canonical string of a value + extracted heap against the environment's merged program.
+    pub fn canon(&self, v: &Value, heap: &[Vec<u8>]) -> String {
+        let p = self.env.get_program();
+        let cx = crate::canon::TablesCtx {
+            tuples: p.get_tuples(),
+            constants: p.get_constants(),
+            heap,
+            builtins: p.get_builtins().iter().map(|b| b.name.clone()).collect(),
+        };
+        crate::canon::canon(v, &cx)
+    }
+
+    /// All processes over all workers: (pid, worker, ProcessInfo).
+    pub fn processes(&self) -> Vec<(ProcessId, usize, quiver_core::ProcessInfo)> {
+        let mut v = vec![];
+        for (wi, w) in self.workers.iter().enumerate() {
+            let ex = w.verif_executor();
+            for pid in ex.verif_process_ids() {
+                if let Some(info) = ex.get_process_info(pid) {
+                    v.push((pid, wi, info));
+                }
+            }
+        }
+        v.sort_by_key(|x| x.0);
+        v
+    }
+
+    pub fn render_schedule(&self) -> String {
+        self.schedule.iter().map(|c| c.render()).collect::<Vec<_>>().join(" ")
+    }
+}
+
+/// Outcome of evaluating one source under one schedule.
+#[derive(Clone, Debug)]
+pub enum EvalOutcome {
+    Value(String),
+    RuntimeError(String),
+    Rejected(String),
+    NoCode,
+    /// quiescent without a result (deadlock / lost wake-up) or step budget exhausted
+    Hang { quiescent: bool },
+}
+
+impl EvalOutcome {
+    pub fn render(&self) -> String {
+        match self {
+            EvalOutcome::Value(v) => v.clone(),
+            EvalOutcome::RuntimeError(e) => format!("error:{e}"),
+            EvalOutcome::Rejected(e) => format!("rejected:{e}"),
+            EvalOutcome::NoCode => "nocode".into(),
+            EvalOutcome::Hang { quiescent } => format!("hang:quiescent={quiescent}"),
+        }
+    }
+}
+
+/// Convenience: build a system, evaluate `src` under a random schedule drawn from `r`.
+pub fn eval_random(
+    src: &str,
+    modules: &HashMap<Vec<String>, String>,
+    n_workers: usize,
+    quantum: Option<usize>,
+    r: &mut Rng,
+    policy: &Policy,
+    max_steps: usize,
+) -> (EvalOutcome, Sim) {
+    let mut sim = Sim::new(n_workers, quantum, crate::run::builtins(), false).with_repl(modules.clone());
+    let out = eval_in(&mut sim, src, Some((r, policy)), max_steps);
+    (out, sim)
+}
+
+/// Evaluate `src` in an existing system (random schedule if given, else fair rounds).
+pub fn eval_in(sim: &mut Sim, src: &str, random: Option<(&mut Rng, &Policy)>, max_steps: usize) -> EvalOutcome {
+    let req = match sim.submit(src) {
+        Ok(Some(id)) => id,
+        Ok(None) => return EvalOutcome::NoCode,
+        Err(ReplError::Parser(e)) => return EvalOutcome::Rejected(format!("parse:{e:?}")),
+        Err(ReplError::Compiler(e)) => return EvalOutcome::Rejected(format!("compile:{e:?}")),
+        Err(e) => return EvalOutcome::Rejected(format!("{e:?}")),
+    };
+    let mut result = None;
+    let done = |s: &mut Sim| {
+        if result.is_none() {
+            result = s.poll_result(req);
+        }
+        result.is_some()
+    };
+    let finished = match random {
+        Some((r, p)) => sim.run_random(r, p, max_steps, done),
+        None => sim.run_fair(max_steps, done),
+    };
+    if !finished {
+        return EvalOutcome::Hang { quiescent: sim.quiescent() };
+    }
+    match result.unwrap() {
+        Ok((v, heap)) => EvalOutcome::Value(sim.canon(&v, &heap)),
+        Err(e) => EvalOutcome::RuntimeError(crate::canon::error_class(&e)),
+    }
+}
